@@ -394,7 +394,10 @@ def main():
     seed = int(os.environ.get("VERIF_SEED", "0") or 0)
     only = [x for x in a.only.split(",") if x]
     try:
-        if a.prop in H.KANI_PROPS:
+        if a.prop == "C19":
+            import tv_check
+            rc = tv_check.run_c19(a.tier, seed, write_evidence, only)
+        elif a.prop in H.KANI_PROPS:
             rc = kani_property(a.prop, a.tier, only, a.jobs, seed)
         else:
             log("unknown property", a.prop)
